@@ -34,7 +34,7 @@ func main() {
 	}
 	r.SetDeadline(dl)
 	deadlineAt = time.Now().Add(dl)
-	f, err := buildFixture(baseHeadB+uint64(depth)+2, 5, 10)
+	f, err := buildFixture(baseHeadB+uint64(depth)+2, 2, 3, 4, 5, 10)
 	if err != nil {
 		fmt.Println("MACHINERY-ERROR: cannot build the fixture chain:", err)
 		os.Exit(2)
